@@ -2,7 +2,7 @@
    conditions hold of the code's own struct types, and the hypotheses are satisfiable by non-trivial values. *)
 From Coq Require Import List NArith ZArith Lia Bool Arith.
 From TarsV Require Import Gen.Consts Base.Hex Codec.Wire Codec.Skip Codec.Prim Codec.GenCodec Codec.Corr
-  Codec.RoundTrip Codec.RoundTripProofs Codec.TotalProofs Codec.PrefixProofs Gen.Schemas.
+  Codec.RoundTrip Codec.RoundTripProofs Codec.TotalProofs Codec.PrefixProofs Codec.NormProofs Gen.Schemas.
 Import ListNotations.
 Open Scope N_scope.
 
@@ -143,4 +143,24 @@ Proof.
 Qed.
 Example env0_flat_types :
   filter (fun sid => flat_b (fields_of env0 sid)) (seq 0 (length env0)) = [3; 4; 6; 9; 10; 11; 12; 13; 14; 15; 17; 20; 22; 23; 27]%nat.
+Proof. vm_compute. reflexivity. Qed.
+
+(* the declared defaults of the regenerated schemas are values of their member's type; with that, the round trip
+   on the code's schemas in the property's own terms: an equal value comes back *)
+Theorem env0_defaults_typed : defaults_typed env0.
+Proof. apply defaults_typed_b_sound. vm_compute. reflexivity. Qed.
+Theorem env0_roundtrip_equal : forall sid vs, tfin 8 env0 (TStruct sid) = true ->
+  has_type env0 (TStruct sid) (VStruct vs) ->
+  exists v', decode env0 sid (encode env0 sid (VStruct vs)) = DOk v' [] /\ veq env0 (TStruct sid) v' (VStruct vs).
+Proof.
+  intros sid vs Hfin Hty. apply (roundtrip_equal env0 2 8); try assumption.
+  - apply env0_wf_schema.
+  - apply env0_defaults_typed.
+  - lia.
+  - now apply env0_static.
+Qed.
+(* -0.0 in an optional float member with default +0.0 is omitted and comes back as +0.0: equal under ==, not identical *)
+Example norm_not_identity :
+  let e := [[ {| ftag := 1; freq := false; fty := TF32; fdef := None |} ]] in
+  decode e 0 (encode e 0 (VStruct [VFlt 2147483648])) = DOk (VStruct [VFlt 0]) [].
 Proof. vm_compute. reflexivity. Qed.
